@@ -120,6 +120,20 @@ void explore19(Options const& o, std::vector<Shim*> const& shims, std::vector<Sh
       { i64 e = s->fm_early(i, 0), n = s->fm_early(i, 1);
         if( e != n ) rec.viol(c_early, ob | static_cast<u64>(i), [&]{ return ex1(s, "compiled table function called from a static initialiser of a translation unit linked before fixed_math.cc", "probe #" + std::to_string(i), {{"probe",to_s(i)}}, to_s(n) + " (value when called later)", to_s(e), "early", {to_s(i)}); }); }
     rec.add_states(static_cast<u64>(s->fm_early_count()), 2 * static_cast<u64>(s->fm_early_count()), static_cast<u64>(s->fm_early_count()));
+    // the angle functions called with LITERAL angles (the optimiser knows the argument: __builtin_constant_p fast paths, folding)
+    {
+    int c_k = rec.cls("C19.angle_aprox_with_literal_argument_wrong");
+    LocalViol lv(rec);
+    for( int cosine = 0; cosine < 2; ++cosine ) for( int i = 0; i < s->fm_angle_constarg_count(); ++i )
+      {
+      int32_t d = s->fm_angle_constarg_value(i); i64 g = 0;
+      int sg = guarded([&]{ g = s->fm_angle_constarg(cosine, i); });
+      Interval iv = c.deg[cosine][residue360(d)];
+      if( sg || g < iv.lo || g > iv.hi ) lv.hit(c_k, ob | (0xeull << 52) | static_cast<u64>(cosine * 64 + i), [=]{ return ex1(s, cosine ? "cos_angle_aprox" : "sin_angle_aprox", "argument is a literal", {{"d",to_s(d)}},
+           "raw in [" + to_s(iv.lo) + "," + to_s(iv.hi) + "]", sg ? "killed by signal " + std::to_string(sg) : to_s(g), "anglek", {to_s(cosine), to_s(i)}); });
+      }
+    rec.add_states(2 * static_cast<u64>(s->fm_angle_constarg_count()), 2 * static_cast<u64>(s->fm_angle_constarg_count()), 2 * static_cast<u64>(s->fm_angle_constarg_count()));
+    }
     }
     // (a) table entries
     {
@@ -240,6 +254,11 @@ void replay19(Options const& o, Shim* s, Recorder& rec)
       rec.viol(c.c_index, 0, [&]{ Example e; e.entry = cosine ? "cos_angle_aprox" : "sin_angle_aprox"; e.cfg = o.rcfg; e.inputs = {{"d",to_s(a)}}; e.expected = "index " + to_s(residue360(a)); e.got = "index " + to_s(idx); e.rcase = o.rcase; e.rin = o.rin; return e; });
     return;
     }
+  if( o.rcase == "anglek" )
+    { int cosine = static_cast<int>(parse_i64(o.rin.at(0))), i = static_cast<int>(parse_i64(o.rin.at(1))); int32_t dd = s->fm_angle_constarg_value(i); i64 g = 0;
+      int sg = guarded([&]{ g = s->fm_angle_constarg(cosine, i); }); Interval iv = c.deg[cosine][residue360(dd)];
+      if( sg || g < iv.lo || g > iv.hi ) rec.viol(rec.cls("C19.angle_aprox_with_literal_argument_wrong"), 0, [&]{ return ex1(s, cosine ? "cos_angle_aprox" : "sin_angle_aprox", "argument is a literal", {{"d",to_s(dd)}}, "[" + to_s(iv.lo) + "," + to_s(iv.hi) + "]", sg ? "signal" : to_s(g), o.rcase, o.rin); });
+      rec.add_states(1,1,1); return; }
   if( o.rcase == "early" ) { int i = static_cast<int>(parse_i64(o.rin.at(0))); i64 e = s->fm_early(i, 0), n = s->fm_early(i, 1);
     if( e != n ) { rec.viol(rec.cls("C19.value_during_static_initialisation_differs"), 0, [&]{ return ex1(s, "static-initialisation probe", "", {{"probe",to_s(i)}}, to_s(n), to_s(e), o.rcase, o.rin); }); }
     return; }
